@@ -193,6 +193,13 @@ def check_visitor(ctx: Ctx, env, A: SqlAnalysis, langs, done: Dict[str, Dict[str
             for k in sorted(o.kinds):
                 if k == "Duration" and "unpack" in o.attr:
                     continue  # the sign of a duration: '+', '-' or nothing (checked with the DURATION_PATTERN in C06)
+                if k == "Float" and o.attr == "py_val":
+                    # not the literal's text but Python's rendering of a double: a literal beyond the range of a double (the lexer accepts
+                    # any exponent) is rendered `inf`, which is no SQL numeric literal
+                    ctx.fail("R1.raw-token-class", f"{vs}|{k}.{o.attr}", "the Python float value of the literal is emitted instead of its text: "
+                             "`1e999` is rendered as `inf`, which is not a SQL numeric literal (and digits beyond double precision are lost)",
+                             t.where, "x lt 1e999")
+                    continue
                 pat = RAW_OUTSIDE_QUOTES_LANGUAGE.get(k)
                 if pat is None:
                     ctx.fail("R1.raw-token-class", f"{key}|{k}.{o.attr}", f"{k}.{o.attr} is emitted outside quotes; no SQL token class is known for it",
